@@ -78,7 +78,18 @@ func canonSet(in map[string]bool) map[string]bool {
 }
 
 func TestCheck(t *testing.T) {
+	if spec := os.Getenv("VERIF_C03_PROC"); spec != "" {
+		procChild03(spec)
+		return
+	}
 	r := runner.Start("C03", "model_checking")
+	if runner.ReplayPath() != "" && replayProc(r) {
+		r.Finish()
+	}
+	if os.Getenv("VERIF_C03_PART") == "process" { // development switch
+		processPart03(r)
+		r.Finish()
+	}
 	if qcheck.HandleReplay(r, []qcheck.Spec{{Name: "c03-hist", Extra: grants}}, nil) {
 		r.Finish()
 	}
@@ -195,6 +206,7 @@ func TestCheck(t *testing.T) {
 		dispatcherPart(r, t)
 		restartPart(r, t)
 		durationsPart(r, t)
+		processPart03(r)
 	}
 	r.Assume("the virtual clock advances only while no store operation is in flight (operations take microseconds, leases seconds)")
 	r.Assume("scheduling points are the synchronisation operations of the store (mutex, atomics, SQLite connection acquisition); code between them is thread-local provided it is data-race free (side condition checked by a separate free-running -race pass)")
